@@ -180,7 +180,7 @@ func (h *c17h) chainsParams() dymnstypes.ChainsParams {
 	return cp
 }
 
-func atoi(s string) int {
+func c17atoi(s string) int {
 	v, err := strconv.Atoi(s)
 	if err != nil {
 		panic("bad int " + s)
@@ -205,7 +205,7 @@ func (h *c17h) reset(f []string) string {
 	h.f.Ctx = h.base
 	cctx, _ := h.base.CacheContext()
 	h.f.Ctx = cctx.WithGasMeter(storetypes.NewInfiniteGasMeter())
-	h.nA, h.nN, h.nL, h.nR = atoi(f[1]), atoi(f[2]), atoi(f[3]), atoi(f[4])
+	h.nA, h.nN, h.nL, h.nR = c17atoi(f[1]), c17atoi(f[2]), c17atoi(f[3]), c17atoi(f[4])
 	h.acctID, h.nameID, h.aliasID, h.chainID, h.hrpID = map[string]int{}, map[string]int{}, map[string]int{}, map[string]int{}, map[string]int{}
 	for i := 0; i < h.nA; i++ {
 		h.acctID[c17Acct(i)] = i
@@ -231,13 +231,13 @@ func (h *c17h) reset(f []string) string {
 	p := dymnstypes.Params{
 		Price: dymnstypes.PriceParams{
 			NamePriceSteps: bigs(f[10]), AliasPriceSteps: bigs(f[11]), PriceExtends: bigs(f[9])[0],
-			PriceDenom: c17Denom, MinOfferPrice: bigs(f[7])[0], MinBidIncrementPercent: uint32(atoi(f[8])),
+			PriceDenom: c17Denom, MinOfferPrice: bigs(f[7])[0], MinBidIncrementPercent: uint32(c17atoi(f[8])),
 		},
 		Chains: h.chainsParams(),
 		Misc: dymnstypes.MiscParams{
 			EndEpochHookIdentifier: "hour",
-			GracePeriodDuration:    time.Duration(atoi(f[5])) * time.Second,
-			SellOrderDuration:      time.Duration(atoi(f[6])) * time.Second,
+			GracePeriodDuration:    time.Duration(c17atoi(f[5])) * time.Second,
+			SellOrderDuration:      time.Duration(c17atoi(f[6])) * time.Second,
 			EnableTradingName:      f[13] == "1", EnableTradingAlias: f[14] == "1",
 		},
 	}
@@ -258,38 +258,38 @@ func (h *c17h) assetType(t string) dymnstypes.AssetType {
 
 func (h *c17h) assetText(t, id string) string {
 	if t == "l" {
-		return c17Alias(atoi(id))
+		return c17Alias(c17atoi(id))
 	}
-	return c17Name(atoi(id))
+	return c17Name(c17atoi(id))
 }
 
 // msgOf parses a message op line into the real message (nil for non-message ops).
 func (h *c17h) msgOf(f []string) sdk.Msg {
-	a := func(i int) string { return c17Acct(atoi(f[i])) }
+	a := func(i int) string { return c17Acct(c17atoi(f[i])) }
 	switch f[0] {
 	case "reg":
-		return &dymnstypes.MsgRegisterName{Name: c17Name(atoi(f[2])), Duration: int64(atoi(f[3])), Owner: a(1), ConfirmPayment: c17Coin(f[4]), Contact: c17Contact(atoi(f[5]))}
+		return &dymnstypes.MsgRegisterName{Name: c17Name(c17atoi(f[2])), Duration: int64(c17atoi(f[3])), Owner: a(1), ConfirmPayment: c17Coin(f[4]), Contact: c17Contact(c17atoi(f[5]))}
 	case "xfer":
-		return &dymnstypes.MsgTransferDymNameOwnership{Name: c17Name(atoi(f[2])), Owner: a(1), NewOwner: a(3)}
+		return &dymnstypes.MsgTransferDymNameOwnership{Name: c17Name(c17atoi(f[2])), Owner: a(1), NewOwner: a(3)}
 	case "ctrl":
-		return &dymnstypes.MsgSetController{Name: c17Name(atoi(f[2])), Owner: a(1), Controller: a(3)}
+		return &dymnstypes.MsgSetController{Name: c17Name(c17atoi(f[2])), Owner: a(1), Controller: a(3)}
 	case "ura":
-		chain := c17Chain(atoi(f[3]))
-		if atoi(f[3]) == 0 && f[4] == "1" {
+		chain := c17Chain(c17atoi(f[3]))
+		if c17atoi(f[3]) == 0 && f[4] == "1" {
 			chain = ""
 		}
 		val := ""
 		if f[6] != "-" {
 			hp := strings.Split(f[6], ":")
-			val = c17AddrText(atoi(hp[0]), atoi(hp[1]))
+			val = c17AddrText(c17atoi(hp[0]), c17atoi(hp[1]))
 		}
-		return &dymnstypes.MsgUpdateResolveAddress{Name: c17Name(atoi(f[2])), Controller: a(1), ChainId: chain, SubName: c17Paths[atoi(f[5])], ResolveTo: val}
+		return &dymnstypes.MsgUpdateResolveAddress{Name: c17Name(c17atoi(f[2])), Controller: a(1), ChainId: chain, SubName: c17Paths[c17atoi(f[5])], ResolveTo: val}
 	case "det":
 		contact := dymnstypes.DoNotModifyDesc
 		if f[3] != "keep" {
-			contact = c17Contact(atoi(f[3][1:]))
+			contact = c17Contact(c17atoi(f[3][1:]))
 		}
-		return &dymnstypes.MsgUpdateDetails{Name: c17Name(atoi(f[2])), Controller: a(1), Contact: contact, ClearConfigs: f[4] == "1"}
+		return &dymnstypes.MsgUpdateDetails{Name: c17Name(c17atoi(f[2])), Controller: a(1), Contact: contact, ClearConfigs: f[4] == "1"}
 	case "sell":
 		m := &dymnstypes.MsgPlaceSellOrder{AssetId: h.assetText(f[2], f[3]), AssetType: h.assetType(f[2]), Owner: a(1), MinPrice: c17Coin(f[4])}
 		if f[5] != "0" {
@@ -304,7 +304,7 @@ func (h *c17h) msgOf(f []string) sdk.Msg {
 	case "buy":
 		m := &dymnstypes.MsgPurchaseOrder{AssetId: h.assetText(f[2], f[3]), AssetType: h.assetType(f[2]), Buyer: a(1), Offer: c17Coin(f[4])}
 		if f[2] == "l" {
-			m.Params = []string{c17Chain(atoi(f[5]))}
+			m.Params = []string{c17Chain(c17atoi(f[5]))}
 		}
 		return m
 	case "offer":
@@ -313,7 +313,7 @@ func (h *c17h) msgOf(f []string) sdk.Msg {
 			m.ContinueOrderId = f[5]
 		}
 		if f[2] == "l" {
-			m.Params = []string{c17Chain(atoi(f[6]))}
+			m.Params = []string{c17Chain(c17atoi(f[6]))}
 		}
 		return m
 	case "cbo":
@@ -321,20 +321,20 @@ func (h *c17h) msgOf(f []string) sdk.Msg {
 	case "abo":
 		return &dymnstypes.MsgAcceptBuyOrder{OrderId: f[2], Owner: a(1), MinAccept: c17Coin(f[3])}
 	case "rollapp":
-		c := atoi(f[2])
+		c := c17atoi(f[2])
 		pfx := ""
-		if atoi(f[3]) != 0 {
-			pfx = c17Hrp(atoi(f[3]))
+		if c17atoi(f[3]) != 0 {
+			pfx = c17Hrp(c17atoi(f[3]))
 		}
 		return &rollapptypes.MsgCreateRollapp{
 			Creator: a(1), RollappId: c17Chain(c), InitialSequencer: "*", MinSequencerBond: rollapptypes.DefaultMinSequencerBondGlobalCoin,
-			Alias: c17Alias(atoi(f[4])), VmType: rollapptypes.Rollapp_EVM,
+			Alias: c17Alias(c17atoi(f[4])), VmType: rollapptypes.Rollapp_EVM,
 			GenesisInfo: &rollapptypes.GenesisInfo{Bech32Prefix: pfx, GenesisChecksum: "1234567890abcdefg", InitialSupply: math.NewInt(1000),
 				NativeDenom: rollapptypes.DenomMetadata{Display: "DEN", Base: "aden", Exponent: 18}},
 			Metadata: &rollapptypes.RollappMetadata{Website: "https://dymension.xyz", Description: "d", LogoUrl: "https://dymension.xyz/logo.png", Telegram: "https://t.me/rolly", X: "https://x.dymension.xyz"},
 		}
 	case "alias":
-		return &dymnstypes.MsgRegisterAlias{Alias: c17Alias(atoi(f[3])), RollappId: c17Chain(atoi(f[2])), Owner: a(1), ConfirmPayment: c17Coin(f[4])}
+		return &dymnstypes.MsgRegisterAlias{Alias: c17Alias(c17atoi(f[3])), RollappId: c17Chain(c17atoi(f[2])), Owner: a(1), ConfirmPayment: c17Coin(f[4])}
 	}
 	return nil
 }
@@ -588,9 +588,9 @@ func (h *c17h) view() string {
 
 func (h *c17h) handleText(t string) string {
 	if t[0] == 'l' {
-		return c17Alias(atoi(t[1:]))
+		return c17Alias(c17atoi(t[1:]))
 	}
-	return c17Chain(atoi(t[1:]))
+	return c17Chain(c17atoi(t[1:]))
 }
 
 func (h *c17h) revCandidates(hrp, acct, wc int) ([]string, error) {
@@ -644,7 +644,7 @@ func (h *c17h) query(f []string) string {
 	case "v":
 		return h.view()
 	case "own":
-		l, err := h.k.GetDymNamesOwnedBy(ctx, c17Acct(atoi(f[1])))
+		l, err := h.k.GetDymNamesOwnedBy(ctx, c17Acct(c17atoi(f[1])))
 		if err != nil {
 			return "err"
 		}
@@ -654,10 +654,10 @@ func (h *c17h) query(f []string) string {
 		}
 		return h.ids(ns, h.nameID)
 	case "res":
-		return h.resolveTok(atoi(f[1]), atoi(f[2]), f[3])
+		return h.resolveTok(c17atoi(f[1]), c17atoi(f[2]), f[3])
 	case "rev":
 		hp := strings.Split(f[1], ":")
-		toks, err := h.revCandidates(atoi(hp[0]), atoi(hp[1]), atoi(f[2]))
+		toks, err := h.revCandidates(c17atoi(hp[0]), c17atoi(hp[1]), c17atoi(f[2]))
 		if err != nil {
 			return "err"
 		}
@@ -666,13 +666,13 @@ func (h *c17h) query(f []string) string {
 		}
 		return strings.Join(toks, " ")
 	case "bon":
-		l, _ := h.k.GetBuyOrdersOfDymName(ctx, c17Name(atoi(f[1])))
+		l, _ := h.k.GetBuyOrdersOfDymName(ctx, c17Name(c17atoi(f[1])))
 		return boIDs(l)
 	case "bol":
-		l, _ := h.k.GetBuyOrdersOfAlias(ctx, c17Alias(atoi(f[1])))
+		l, _ := h.k.GetBuyOrdersOfAlias(ctx, c17Alias(c17atoi(f[1])))
 		return boIDs(l)
 	case "bob":
-		l, _ := h.k.GetBuyOrdersByBuyer(ctx, c17Acct(atoi(f[1])))
+		l, _ := h.k.GetBuyOrdersByBuyer(ctx, c17Acct(c17atoi(f[1])))
 		return boIDs(l)
 	}
 	return "bad-op"
@@ -698,7 +698,7 @@ func (h *c17h) exec(line string) string {
 	obs := "ok"
 	switch f[0] {
 	case "fund":
-		h.f.Fund(Actor(atoi(f[1])), c17Coin(f[2]))
+		h.f.Fund(Actor(c17atoi(f[1])), c17Coin(f[2]))
 	case "adv":
 		dt, _ := strconv.ParseInt(f[1], 10, 64)
 		h.f.Ctx = h.f.Ctx.WithBlockTime(h.f.Ctx.BlockTime().Add(time.Duration(dt) * time.Second)).WithBlockHeight(h.f.Ctx.BlockHeight() + 1)
@@ -713,7 +713,7 @@ func (h *c17h) exec(line string) string {
 			h.resv = nil
 			if f[1] != "-" {
 				for _, x := range strings.Split(f[1], ",") {
-					h.resv = append(h.resv, atoi(x))
+					h.resv = append(h.resv, c17atoi(x))
 				}
 			}
 			cp := h.chainsParams()
